@@ -486,6 +486,24 @@ theorem h1Msg_answer (site : Site) (e : SrvEnv) (c : Conn) (hinv : ConnInv e c) 
 
 theorem ConnInv_fresh (e : SrvEnv) : ConnInv e (Conn.fresh e) := ⟨rfl, fun _ => rfl⟩
 
+/-- the connection after the request heads `P` have been handled one after the other -/
+def connAfter (site : Site) (e : SrvEnv) (c : Conn) : List Bytes → Conn
+  | [] => c
+  | head :: rest => connAfter site e (h1Msg site e c head).1 rest
+
+theorem connInv_after (site : Site) (e : SrvEnv) (P : List Bytes) :
+    ∀ c, ConnInv e c → ConnInv e (connAfter site e c P) := by
+  induction P with
+  | nil => intro c h; exact h
+  | cons head rest ih =>
+    intro c h
+    apply ih
+    by_cases ho : c.isOpen = true
+    · exact (h1Msg_answer site e c h ho head).2
+    · have : h1Msg site e c head = (c, none) := by simp [h1Msg, ho]
+      rw [this]; exact h
+
+
 /-! ### one HTTP/2 stream on a pooled request object -/
 
 theorem h2InitStream_core (h2r : ReqSt) (swin : Nat) (p q : ReqSt) (h : p.toReqCore = q.toReqCore) :
